@@ -1,5 +1,6 @@
 """C18 — reservoir contents are always a valid sample of the stream."""
 from ..paths import PathEnumerator
+from ..guards import fv
 from ..terms import TermBuilder, fmt, mk, const, subterms
 from ..guards import panic_sites
 from .common import SELF, self_field, config_fields
@@ -52,7 +53,7 @@ def run(ctx):
             probs_val.append("reservoir modified through %s" % other[0].get("name"))
         for e in pushes:
             n_push += 1
-            if fd.get(repr(fill)) is not True:
+            if fv(fd, fill) is not True:
                 probs_len.append("push outside the `i < k` branch")
             if e["args"][1][:2] != ("param", 2):
                 probs_val.append("pushed value is %s, not the added item" % fmt(e["args"][1]))
@@ -60,7 +61,7 @@ def run(ctx):
             n_store += 1
             if e["value"][:2] != ("param", 2):
                 probs_val.append("stored value is %s, not the added item" % fmt(e["value"]))
-            if fd.get(repr(fill)) is not False:
+            if fv(fd, fill) is not False:
                 probs_idx.append("indexed store on a path where `i < k` is not refuted (reservoir may be shorter than k)")
             # index term
             idx = None
@@ -69,7 +70,7 @@ def run(ctx):
             if idx is None:
                 probs_idx.append("store without a recognisable index")
                 continue
-            in_range = fd.get(repr(mk("Lt", idx, k_f))) is True
+            in_range = fv(fd, mk("Lt", idx, k_f)) is True
             if idx[0] == "call" and idx[1].endswith("gen_range") and len(idx[2]) >= 2:
                 r = idx[2][1]
                 if r[0] == "adt" and r[1] == "std::ops::Range":
@@ -80,6 +81,9 @@ def run(ctx):
                 probs_idx.append("index %s is neither guarded by `< k` nor drawn from 0..k" % fmt(idx))
         if len(pushes) + len(stores) > 1:
             probs_val.append("more than one store per add")
+        # len = min(i, k) needs every call in the fill phase to append: a path must either append or refute `i < k`
+        if not pushes and fd.get(repr(fill)) is not False:
+            probs_len.append("a path neither appends the item nor establishes i >= k (an item of the fill phase can be dropped, so len < min(n, k))")
     ctx.check(not probs_len and n_push >= 1, "R18-length", add.key, add, "%d paths: push only under i < k; i += 1 exactly once per call" % n,
               "; ".join(sorted(set(probs_len))[:3]) or "no push found")
     ctx.check(not probs_idx and n_store >= 2, "R18-index-in-range", add.key, add, "%d indexed stores, all with j < k on paths with i >= k" % n_store,
@@ -87,6 +91,9 @@ def run(ctx):
     ctx.check(not probs_val, "R18-only-stream-items", add.key, add, "every stored value is the `obj` argument (moved), at most one store per call; fill phase appends",
               "; ".join(sorted(set(probs_val))[:3]))
 
+    # state kept across clear() breaks the invariants for the next stream: C19's clear rules on the sampler
+    from .C19 import run_clear_rules
+    run_clear_rules(ctx, only_adt=RS, floor=1)
     # ---- no panic ---------------------------------------------------------------------
     cf = config_fields(ctx, RS)
     ctx.check("k" in cf, "R18-config", RS + ":k", add, "k is never written outside the constructor", "field k is written by a method: the `k >= 1` invariant from new() is not stable")
@@ -120,7 +127,7 @@ def run(ctx):
                 if s == const(0) and e in (k_f, i_f, mk("Add", i_f, const(1))):
                     # i >= k must be known here when the end is i
                     facts = {repr(c): tr for c, tr in atomic_facts(add, prog, bi, tb)}
-                    okr = e != i_f or facts.get(repr(fill)) is False or facts.get(repr(fill_len)) is False
+                    okr = e != i_f or fv(facts, fill) is False or fv(facts, fill_len) is False
                 if s and e and s[0] == "const" and e[0] == "const" and s[1] < e[1]:
                     okr = True
                     # a float draw that feeds ln(1 - x) must exclude 1.0 (ln 0 = -inf saturates the gap and `i + g` overflows)
